@@ -77,7 +77,7 @@ Simple == << <<"IDENT", "T_STRING">>, <<"IDENT_HIGH", "T_STRING">>, <<"VAR", "T_
              <<"DNUM", "T_DNUMBER">>, <<"DNUM_LEADDOT", "T_DNUMBER">>, <<"DNUM_TRAILDOT", "T_DNUMBER">>, <<"DNUM_EXP", "T_DNUMBER">>,
              <<"SQ_STR", "T_CONSTANT_ENCAPSED_STRING">>, <<"SQ_STR_NL", "T_CONSTANT_ENCAPSED_STRING">>,
              <<"DQ_CONST_STR", "T_CONSTANT_ENCAPSED_STRING">>, <<"DQ_CONST_DOLLAR", "T_CONSTANT_ENCAPSED_STRING">>,
-             <<"B_SQ_STR", "T_CONSTANT_ENCAPSED_STRING">>, <<"B_DQ_STR", "T_CONSTANT_ENCAPSED_STRING">>,
+             <<"B_DQ_STR", "T_CONSTANT_ENCAPSED_STRING">>,
              <<"YIELD_FROM", "T_YIELD_FROM">> >>
 
 Idx(tbl) == 1 .. Len(tbl)
@@ -87,10 +87,11 @@ KwAtoms   == {"KW:" \o Keywords[i][1] : i \in (IF Small THEN {1, Len(Keywords) \
 OpAtoms   == {"OP:" \o Operators[i][1] : i \in (IF Small THEN {1, 9, 33} ELSE Idx(Operators))}
 ChAtoms   == {"CH:" \o c : c \in (IF Small THEN {";", "(", ")", "$", "-", ",", "["} ELSE Chars)}
 CastAtoms == {"CAST:" \o Casts[i][1] : i \in Pick(Casts)}
-SimpleAtoms == {Simple[i][1] : i \in (IF Small THEN {1, 3, 4, 12, 15, 17} ELSE Idx(Simple))}
+SimpleAtoms == {Simple[i][1] : i \in (IF Small THEN {1, 3, 4, 12, 15, 17} ELSE Idx(Simple))}     \* (the Small picks are IDENT VAR LNUM_DEC DNUM_LEADDOT SQ_STR DQ_CONST_STR)
 
 TokOf(tbl, pre, a) == LET i == CHOOSE j \in Idx(tbl) : pre \o tbl[j][1] = a IN tbl[i][2]
 
+NameStartAtoms == {"IDENT", "IDENT_HIGH", "B_DQ_STR", "YIELD_FROM"}    \* atoms whose spelling begins with a name byte
 WsAtoms == {"WS:sp", "WS:lf", "WS:crlf", "WS:cr"}
 CommentAtoms == {"COMMENT:line_lf", "COMMENT:hash_crlf", "COMMENT:block", "COMMENT:doc", "COMMENT:empty"}
 
@@ -154,8 +155,11 @@ Php == /\ mode \in FallModes
                                 /\ Stay(a, a)
           \/ \E a \in CastAtoms : after = 0 /\ mode # "halt_open" /\ Stay(a, TokOf(Casts, "CAST:", a))   \* after __halt_compiler "(" is the halt rule's
           \/ \E a \in SimpleAtoms : /\ after = 0
-                                    /\ ~(mode = "property" /\ a \in {"IDENT", "IDENT_HIGH"})
+                                    /\ ~(mode = "property" /\ a \in NameStartAtoms)   \* there the leading name bytes are the property name
                                     /\ Stay(a, TokOf(Simple, "", a))
+          \* DEVIATION (finding D20): constant_string knows the binary prefix before '"' only, so  b'a'  is a name and a string
+          \* (the same two tokens in the property state, where the name is the property name)
+          \/ (after = 0 /\ Eff("B_SQ_STR", <<T("T_STRING"), T("T_CONSTANT_ENCAPSED_STRING")>>, "php", stack, "none", FALSE, FALSE, 0, FALSE, 0))
           \* "->" : the next name is a property name, whatever keyword it spells
           \/ (after = 0 /\ Eff("ARROW", <<T("T_OBJECT_OPERATOR")>>, "property", stack, "none", FALSE, FALSE, 0, FALSE, 0))
           \/ (mode = "property" /\ Eff("PROP_NAME", <<T("T_STRING")>>, "php", stack, "none", FALSE, FALSE, 0, FALSE, 0))
@@ -166,7 +170,8 @@ Php == /\ mode \in FallModes
           \* strings
           \/ (after = 0 /\ Eff("DQUOTE", <<T("CH:\"")>>, "template", stack, "none", TRUE, FALSE, 0, FALSE, 0))
           \/ (after = 0 /\ Eff("BACKTICK", <<T("CH:`")>>, "backqote", stack, "none", FALSE, FALSE, 0, FALSE, 0))
-          \/ \E q \in {"plain", "dq"} : after = 0 /\ Eff("HEREDOC_START:" \o q, <<T("T_START_HEREDOC")>>, "heredoc", stack, "none", FALSE, TRUE, 0, FALSE, 0)
+          \/ \E q \in {"plain", "dq"} : after = 0 /\ ~(mode = "property" /\ q = "plain")     \* "b<<<A" is one of its spellings
+                                         /\ Eff("HEREDOC_START:" \o q, <<T("T_START_HEREDOC")>>, "heredoc", stack, "none", FALSE, TRUE, 0, FALSE, 0)
           \/ (after = 0 /\ Eff("HEREDOC_START:sq", <<T("T_START_HEREDOC")>>, "nowdoc", stack, "none", FALSE, TRUE, 0, FALSE, 0))
           \* leaving php
           \/ \E a \in {"CLOSE_TAG", "CLOSE_TAG:lf", "SEMI_CLOSE_TAG"} :
